@@ -666,8 +666,10 @@ impl Model {
                 top = c.clone();
                 cur = parent(&c);
             }
-            // an existing link at or below the destination is written through: lands anywhere
-            if self.t.subtree(&d).iter().any(|k| self.t.nodes[k].kind == Kind::Link) {
+            // an existing link at or below the destination is written through, and a followed link
+            // inside the source is copied under its target's path: with any link in play the
+            // result may land anywhere
+            if self.t.nodes.values().any(|n| n.kind == Kind::Link) {
                 return lenient(vec!["/".into()]);
             }
             return lenient(vec![top]);
@@ -1341,6 +1343,9 @@ impl Model {
             Op::Copy { s, d } => self.copy(s, d, &[]),
             Op::CopyB { s, d, calls } => self.copy(s, d, calls),
             Op::MoveP { s, d } => self.move_p(s, d),
+            // when a builder resolves its paths is not documented: anything goes for the model,
+            // the wrapper must still do exactly what the wrapped backend does (C13)
+            Op::CopyBDeferred { .. } => vec![alt(Expect::Any, Next::Resync(vec!["/".into()]))],
             Op::Paths { p } => self.listing(p, false, None),
             Op::Dirs { p } => self.listing(p, false, Some(Kind::Dir)),
             Op::Files { p } => self.listing(p, false, Some(Kind::File)),
